@@ -162,6 +162,15 @@ FAULTS = [
     ("operator-type", ["def a = 1", "def b = [] * 'x'", "a"], 1, "rt", {}),
     ("native-type", ["def a = 1", "length(a)", "a"], 1, "rt", {}),
     ("explicit-error", ["def a = 1", "error 'x' + a", "a"], 1, "rt", {}),
+    ("chain-add", ["def a = 1", "def b = a + 2 - 'x' + 3", "a"], 1, "rt",
+     {}),
+    ("chain-mul", ["def a = 1", "def b = a * 2 / 'x' % 3", "a"], 1, "rt",
+     {}),
+    ("nested-call", ["def a = 1", "def b = string(length(a))", "a"], 1,
+     "rt", {}),
+    ("member", ["def o = <*v = 1*>", "def b = o->nope(2)", "o"], 1, "rt",
+     {}),
+    ("second-arg", ["def a = 1", "def b = [a, zzz, 3]", "a"], 1, "rt", {}),
     ("arity", ["def f(p) p", "def a = 1", "f(a, 2)", "a"], 2, "rt", {}),
     ("index", ["def l = [1]", "def a = 1", "l[5]", "a"], 2, "rt", {}),
     ("not-boolean", ["def a = 1", "if a then 2", "a"], 1, "rt", {}),
@@ -201,15 +210,47 @@ def session():
 POS_RE = re.compile(r"(\S+):(\d+):(-?\d+)$")
 
 
-def run_fault(name, stmts, idx, kind, exp, seps, lead):
-    """render statements (each on one line) with the given separators after
-    the ';' and run; returns list of (what, expected, observed) mismatches"""
+POSTOK = {"chain-add": 6, "chain-mul": 6, "nested-call": 6, "member": 4,
+          "second-arg": 6, "undefined-name": 3, "operator-type": 5, "native-type": 1,
+          "explicit-error": 0, "arity": 1, "index": 1, "not-boolean": 0,
+          "deep": 5, "stray-paren": 3, "missing-then": 2, "bad-def": 1,
+          "unexpected-end": 5, "missing-end": 3}
+
+
+def inner_layouts(name, stmt):
+    """layouts of the faulty statement itself: None (one line), every single
+    boundary broken by a line break or a comment, all boundaries broken"""
+    yield None
+    if name not in POSTOK:
+        return
+    toks = L.tokenize(stmt)
+    n = len(toks) - 1
+    for i in range(n):
+        for a in ("\n", " # c\n", "\r\n\r\n"):
+            seps = [" "] * n
+            seps[i] = a
+            yield seps
+    yield ["\n"] * n
+    yield ["\n\n"] * n
+
+
+def run_fault(name, stmts, idx, kind, exp, seps, lead, inner=None):
+    """render statements with the given separators after the ';' (the faulty
+    statement optionally spread over several lines) and run; returns list of
+    (what, expected, observed) mismatches"""
     parts = [lead]
     line = 1 + lead.count("\n")
     stmt_line = []
     for k, s in enumerate(stmts):
         stmt_line.append(line)
-        parts.append(s)
+        if k == idx and inner is not None:
+            toks = L.tokenize(s)
+            text_k, tl = L.render(toks, inner)
+            stmt_line[k] = line + tl[POSTOK[name]] - 1
+            parts.append(text_k)
+            line += text_k.count("\n")
+        else:
+            parts.append(s)
         if k < len(stmts) - 1:
             parts.append(";" + seps[k])
             line += seps[k].count("\n")
@@ -271,18 +312,22 @@ def explore_faults(chunk):
     for fi in chunk["faults"]:
         name, stmts, idx, kind, exp = FAULTS[fi]
         n = len(stmts) - 1
-        for lead in STMT_LEADS:
-            for seps in itertools.product(STMT_SEPS, repeat=n):
-                text, bad = run_fault(name, stmts, idx, kind, exp, seps,
-                                      lead)
-                agg.count("steps")
-                agg.cls(("fault", name, len(bad) == 0))
-                for what, want, got in bad:
-                    agg.violation(
-                        {"what": "fault:" + what, "fault": name},
-                        {"t": "fault", "fault": fi, "seps": list(seps),
-                         "lead": lead, "text": text}, want, got,
-                        size=len(text))
+        for inner in inner_layouts(name, stmts[idx]):
+            leads = STMT_LEADS if inner is None else STMT_LEADS[:2]
+            sepset = STMT_SEPS if inner is None else STMT_SEPS[:2]
+            for lead in leads:
+                for seps in itertools.product(sepset, repeat=n):
+                    text, bad = run_fault(name, stmts, idx, kind, exp, seps,
+                                          lead, inner)
+                    agg.count("steps")
+                    agg.cls(("fault", name, inner is None, len(bad) == 0))
+                    for what, want, got in bad:
+                        agg.violation(
+                            {"what": "fault:" + what, "fault": name,
+                             "multiline": inner is not None},
+                            {"t": "fault", "fault": fi, "seps": list(seps),
+                             "lead": lead, "inner": inner, "text": text},
+                            want, got, size=len(text))
         agg.count("cases")
     return agg
 
@@ -297,7 +342,7 @@ def replay(case, verbose=False):
         return t.pos.line != case["line"] or t.pos.filename != NAME
     name, stmts, idx, kind, exp = FAULTS[case["fault"]]
     text, bad = run_fault(name, stmts, idx, kind, exp, case["seps"],
-                          case["lead"])
+                          case["lead"], case.get("inner"))
     if verbose:
         print(repr(text))
         print(bad)
@@ -333,8 +378,10 @@ def main(tier, seed):
               f"{len(STMT_SEPS)} statement separators x {len(STMT_LEADS)} "
               f"leads; class = (part, token/fault, detail)"),
         exhaustive=True,
-        assumptions=["columns are not compared", "faulty constructs are kept "
-                     "on a single line so that 'begins' is unambiguous"],
+        assumptions=["columns are not compared", "for a faulty construct "
+                     "spread over several lines the expected line is the "
+                     "line of the token that identifies the failing "
+                     "operation (operator, call parenthesis, name, keyword)"],
         replay_fn=replay,
         states_key="steps", transitions_key="steps",
     )
